@@ -1054,6 +1054,30 @@ class World:
         self.stats["delivered_msgs"] += n
         return new
 
+    async def deliver_then_fault(self, name, n=1):
+        """A delivery after which the server's own rewrite of .mh_sequences --
+        in the resync that notices the delivery -- fails once (no space left:
+        the delivery used it up).  The messages must still be announced, with
+        their flags, by a later resync."""
+        from .rig import arm_failpoint, disarm_failpoint
+
+        unseen = [self.rnd.random() < 0.7 for _ in range(n)]
+        new = self.deliver(name, n, unseen=unseen)
+        folder = "inbox" if name == "INBOX" else name
+        arm_failpoint(f"/{folder}/.mh_sequences")
+        self.no_probe = True
+        try:
+            await self.rig.advance(self.rnd.choice([6, 21]))
+        finally:
+            self.no_probe = False
+            fired = disarm_failpoint()
+        self.note(f"external: the server's rewrite of {name}/.mh_sequences failed once (ENOSPC)" if fired else "external: (armed write fault not reached)")
+        self.stats["write_fault_delivered" if fired else "write_fault_not_reached"] += 1
+        await self.rig.advance(self.rnd.choice([6, 21]))
+        for s2 in self.sessions:
+            s2.s.pump()
+        return new
+
     async def deliver_torn(self, name, n=2):
         """A delivery during which the server looks at the folder while the
         agent is half-way through rewriting .mh_sequences (a cut-off range: the
